@@ -254,6 +254,11 @@ def run(tier: str) -> int:
         for seq in itertools.product(alpha2, repeat=4):
             for f, p in configs:
                 cases.append((f, p, [list(o) for o in seq]))
+        # a protected name the private Library does *not* define as a tag (seeded/C15-5: protection applied only to
+        # names the Library already holds)
+        for seq in itertools.product(alphabet(["a", "provide"], ["A", "B"]), repeat=4):
+            for f, p in configs:
+                cases.append((f, p, [list(o) for o in seq]))
         for seq in itertools.product(alphabet(["a", "b"], ["A"]) , repeat=5):
             cases.append(("shorthand", True, [list(o) for o in seq]))
             cases.append(("default", True, [list(o) for o in seq]))
@@ -265,7 +270,7 @@ def run(tier: str) -> int:
     ch.cov["exhaustive"] = bad == 0
     # random long
     n_rand = int((1500 if tier == "quick" else 40000) * ch.budget_scale)
-    names4 = ["a", "b", "slot", "fill", "c"]
+    names4 = ["a", "b", "slot", "fill", "c", "provide", "component"]
     alpha4 = alphabet(names4, ["A", "B", "C"])
     rc = []
     for i in range(n_rand):
